@@ -5,6 +5,8 @@ import (
 	"fmt"
 	"io"
 	"net"
+	"os"
+	"strconv"
 	"sync"
 	"time"
 
@@ -205,6 +207,11 @@ func explainMismatch(p *SessPlan, d int, pos int64, got []byte, opt *XferOpt) *M
 func runTransfer(e *Env, cm *protocol.Mux, plans []*SessPlan, opt XferOpt) ([]*SessResult, bool) {
 	if opt.Watchdog == 0 {
 		opt.Watchdog = 900 * time.Second
+	}
+	if v := os.Getenv("VERIF_WATCHDOG_S"); v != "" {
+		if n, err := strconv.Atoi(v); err == nil {
+			opt.Watchdog = time.Duration(n) * time.Second
+		}
 	}
 	var mu sync.Mutex
 	lives := make([]*liveSess, len(plans))
